@@ -455,6 +455,16 @@ def body_starts(fa, heads):
     return [d for h in heads for (d, l) in fa.cfg.succ[h] if l == "T"]
 
 
+def spread_copy(e):
+    """xs for `[*xs]` / `(*xs,)` / `[x for x in xs]`: a new list / tuple of the elements of xs, in order."""
+    if isinstance(e, (ast.List, ast.Tuple)) and isinstance(e.ctx, ast.Load) and len(e.elts) == 1 and isinstance(e.elts[0], ast.Starred):
+        return e.elts[0].value
+    if isinstance(e, ast.ListComp) and len(e.generators) == 1 and not e.generators[0].ifs and not e.generators[0].is_async \
+            and isinstance(e.elt, ast.Name) and isinstance(e.generators[0].target, ast.Name) and e.elt.id == e.generators[0].target.id:
+        return e.generators[0].iter
+    return None
+
+
 class Seqs:
     """Classifies sequences of one function by origin.  role(e, at) is None (unknown / not aligned with the input)
     or the name of a sequence that has exactly one element per input position, in input order:
@@ -480,9 +490,13 @@ class Seqs:
         return roles.pop() if len(roles) == 1 else "aligned"
 
     def unwrap(self, e, names=WRAPPERS):
-        while isinstance(e, ast.Call) and A.call_attr(e) in names and len(e.args) == 1 and not isinstance(e.args[0], ast.Starred):
-            e = e.args[0]
-        return e
+        while True:
+            if isinstance(e, ast.Call) and A.call_attr(e) in names and len(e.args) == 1 and not isinstance(e.args[0], ast.Starred):
+                e = e.args[0]
+            elif spread_copy(e) is not None and ("tuple" if isinstance(e, ast.Tuple) else "list") in names:
+                e = spread_copy(e)      # [*xs] is list(xs), (*xs,) is tuple(xs)
+            else:
+                return e
 
     def role(self, e, at, _seen=frozenset()):
         key = (id(e), at)
@@ -496,7 +510,7 @@ class Seqs:
 
     def _role(self, e, at, _seen):
         fa = self.fa
-        if isinstance(e, ast.Call) and self.call_role:
+        if (isinstance(e, ast.Call) or spread_copy(e) is not None) and self.call_role:
             r = self.call_role(self, e, at)
             if r:
                 return r
@@ -1166,20 +1180,290 @@ def _nf_comprehension_loops(node, resolves):
     return changed
 
 
+def _record_fields(cls):
+    """{field: constructor parameter position / name} for a class of which every object keeps, for life, the
+    constructor arguments it was built with under these field names: an explicit __init__ that stores plain parameters
+    (`self.f = p`, unconditionally, once), or the generated one of a dataclass / NamedTuple (fields in declaration
+    order).  A field any method stores to again is left out.  None: the class is not of this kind."""
+    node = cls.node
+    deco = {A.dotted(d.func if isinstance(d, ast.Call) else d) for d in node.decorator_list}
+    named_tuple = any(b.split(".")[-1] == "NamedTuple" for b in cls.base_exprs)
+    if (cls.base_exprs and not named_tuple) or (deco - {"dataclass", "dataclasses.dataclass"}):
+        return None
+    fields = {}
+    init = cls.methods.get("__init__")
+    if init is not None:
+        a = init.node.args
+        if a.vararg or a.kwarg or deco or named_tuple:
+            return None
+        params = [x.arg for x in a.posonlyargs + a.args][1:]
+        kwonly = [x.arg for x in a.kwonlyargs]
+        seen = {}
+        for st in init.node.body:
+            if isinstance(st, ast.Assign) and len(st.targets) == 1 and isinstance(st.targets[0], ast.Attribute) and A.dotted(st.targets[0].value) == "self" \
+                    and isinstance(st.value, ast.Name) and st.value.id in params + kwonly:
+                f = st.targets[0].attr
+                seen[f] = seen.get(f, 0) + 1
+                fields[f] = (params.index(st.value.id) if st.value.id in params else None, st.value.id)
+        # the parameter itself is not rebound in the constructor
+        rebound = {n.id for n in ast.walk(init.node) if isinstance(n, ast.Name) and isinstance(n.ctx, (ast.Store, ast.Del))}
+        fields = {f: v for f, v in fields.items() if seen[f] == 1 and v[1] not in rebound}
+    elif deco or named_tuple:
+        pos = 0
+        for st in node.body:
+            if isinstance(st, ast.AnnAssign) and isinstance(st.target, ast.Name):
+                ann = ast.unparse(st.annotation)
+                if "ClassVar" in ann:
+                    continue
+                if isinstance(st.value, ast.Call) and A.call_attr(st.value) == "field" and any(k.arg in ("init", "kw_only") for k in st.value.keywords):
+                    return None
+                fields[st.target.id] = (pos, st.target.id)
+                pos += 1
+        if any(isinstance(d, ast.Call) and any(k.arg in ("init", "kw_only") for k in d.keywords) for d in node.decorator_list):
+            return None
+    else:
+        return None
+    # stored to again by a method (or by anything reached through `self` in a way that is not plainly a read)
+    for m in cls.methods.values():
+        for n in ast.walk(m.node):
+            if isinstance(n, ast.Attribute) and isinstance(n.ctx, (ast.Store, ast.Del)) and A.dotted(n.value) == "self" and m is not init:
+                fields.pop(n.attr, None)
+            if isinstance(n, ast.Call) and isinstance(n.func, ast.Name) and n.func.id in ("setattr", "delattr") or \
+                    (isinstance(n, ast.Attribute) and n.attr == "__dict__"):
+                return None
+    return fields
+
+
+def _nf_record_fields(fi, node):
+    """`obj.f` for a local `obj = C(..., x, ...)` (bound once, outside any loop) of a record class of the same module
+    whose field f is the constructor argument x for life (see _record_fields), x being a name that is bound once in
+    this function and `obj.f` never being stored to here: the read is written as `x`."""
+    st = _stores(node)
+    cands = {}
+    for blk in _blocks_of(node):
+        for s_ in blk:
+            if not (isinstance(s_, ast.Assign) and len(s_.targets) == 1 and isinstance(s_.targets[0], ast.Name) and st.get(s_.targets[0].id) == 1
+                    and isinstance(s_.value, ast.Call) and isinstance(s_.value.func, ast.Name)):
+                continue
+            c = s_.value
+            cls = fi.module.classes.get(c.func.id)
+            if cls is None or any(isinstance(a, ast.Starred) for a in c.args) or any(k.arg is None for k in c.keywords):
+                continue
+            fields = _record_fields(cls)
+            if not fields:
+                continue
+            sub = {}
+            for f, (pos, name) in fields.items():
+                v = A.arg_or_kw(c, pos, name) if pos is not None else A.kwarg(c, name)
+                if isinstance(v, ast.Name) and st.get(v.id) == 1:
+                    sub[f] = v.id
+                elif v is not None and not isinstance(v, (ast.Name, ast.Constant)):
+                    sub[f] = v      # computed in place: bound to a local of its own first (below)
+            if sub:
+                cands[s_.targets[0].id] = (s_, sub, blk)
+    if not cands:
+        return False
+    # not under a loop (the argument name could be rebound between the construction and a read of the field), not
+    # captured by a nested function, the field not stored to through the local
+    parents = {}
+    for n in ast.walk(node):
+        for ch in ast.iter_child_nodes(n):
+            parents[id(ch)] = n
+    for obj in list(cands):
+        s_, sub, _blk = cands[obj]
+        x = s_
+        while id(x) in parents and x is not node:
+            x = parents[id(x)]
+            if isinstance(x, (ast.For, ast.While, ast.AsyncFor)) or (isinstance(x, _FUNCS + (ast.Lambda, ast.ClassDef)) and x is not node):
+                cands.pop(obj, None)
+                break
+    for n in ast.walk(node):
+        if isinstance(n, ast.Attribute) and isinstance(n.ctx, (ast.Store, ast.Del)) and isinstance(n.value, ast.Name) and n.value.id in cands:
+            cands[n.value.id][1].pop(n.attr, None)
+        if isinstance(n, ast.Call) and isinstance(n.func, ast.Name) and n.func.id in ("setattr", "delattr") and n.args and isinstance(n.args[0], ast.Name):
+            cands.pop(n.args[0].id, None)
+
+    # `obj = C(a, make())`: the arguments that are computed in place are bound to locals first, in the order they are
+    # evaluated in (`frame__r1 = make(); obj = C(a, frame__r1)`), so that the field has a name to stand for
+    taken = set(st) | {n.id for n in ast.walk(node) if isinstance(n, ast.Name)}
+    for obj, (s_, sub, blk) in cands.items():
+        if not any(isinstance(v, ast.AST) for v in sub.values()):
+            continue
+        c = s_.value
+        by_id = {id(v): f for f, v in sub.items() if isinstance(v, ast.AST)}
+        pre = []
+        slots = [(c.args, i) for i in range(len(c.args))] + [(k, None) for k in c.keywords]
+        for (holder, i) in slots:
+            v = holder[i] if i is not None else holder.value
+            if isinstance(v, (ast.Name, ast.Constant)):
+                continue
+            k = 1
+            base = by_id.get(id(v), "arg")
+            while "%s__r%d" % (base, k) in taken:
+                k += 1
+            tmp = "%s__r%d" % (base, k)
+            taken.add(tmp)
+            pre.append(ast.copy_location(ast.Assign(targets=[ast.Name(id=tmp, ctx=ast.Store())], value=v), s_))
+            ref = ast.copy_location(ast.Name(id=tmp, ctx=ast.Load()), v)
+            if i is not None:
+                holder[i] = ref
+            else:
+                holder.value = ref
+            if id(v) in by_id:
+                sub[by_id[id(v)]] = tmp
+        at = [j for j, x in enumerate(blk) if x is s_]
+        if at:
+            blk[at[0]:at[0]] = pre
+            ast.fix_missing_locations(node)
+        else:
+            for f in [f for f, v in sub.items() if isinstance(v, ast.AST)]:
+                sub.pop(f)
+
+    class T(ast.NodeTransformer):
+        changed = False
+
+        def visit_Attribute(self, n):
+            self.generic_visit(n)
+            if isinstance(n.ctx, ast.Load) and isinstance(n.value, ast.Name) and n.value.id in cands and n.attr in cands[n.value.id][1]:
+                T.changed = True
+                return ast.copy_location(ast.Name(id=cands[n.value.id][1][n.attr], ctx=ast.Load()), n)
+            return n
+    T().visit(node)
+    return T.changed
+
+
+def _nf_first_answer(fi, node):
+    """`return next(chain(g1(), g2(), ...))` / `return next(g())` over local generator closures (no parameters, only
+    mentioned there, every `yield` a statement of its own outside loops / try / with): the first value any of them
+    yields is returned, a generator that ends without yielding hands over to the next, none yielding raises
+    StopIteration — written out as exactly that:
+
+        while True:                      (g1)
+            <body of g1: `yield E` -> `return E`, `return` -> `break`>
+            break
+        ... g2 ...
+        raise StopIteration()
+    """
+    mod = fi.module
+    changed = False
+    for blk in _blocks_of(node):
+        for i, st in enumerate(blk):
+            c = st.value if isinstance(st, ast.Return) else None
+            if not (isinstance(c, ast.Call) and isinstance(c.func, ast.Name) and c.func.id == "next" and len(c.args) == 1 and not c.keywords):
+                continue
+            src = c.args[0]
+            if isinstance(src, ast.Call) and not src.keywords and src.args and (
+                    (isinstance(src.func, ast.Name) and mod.imports.get(src.func.id) == "itertools:chain")
+                    or (isinstance(src.func, ast.Attribute) and src.func.attr == "chain" and isinstance(src.func.value, ast.Name)
+                        and mod.imports.get(src.func.value.id) == "itertools")):
+                gens = list(src.args)
+            else:
+                gens = [src]
+            defs = {}
+            for b in _blocks_of(node):
+                for x in b:
+                    if isinstance(x, ast.FunctionDef):
+                        defs.setdefault(x.name, []).append((b, x))
+            outer_names = {n.id for n in _own_nodes(node) if isinstance(n, ast.Name)} | set(_stores(node))
+            parts = []
+            for k, g in enumerate(gens):
+                if not (isinstance(g, ast.Call) and isinstance(g.func, ast.Name) and not g.args and not g.keywords and len(defs.get(g.func.id, [])) == 1):
+                    parts = None
+                    break
+                home, fn = defs[g.func.id][0]
+                a = fn.args
+                if a.args or a.posonlyargs or a.kwonlyargs or a.vararg or a.kwarg or fn.decorator_list \
+                        or sum(1 for n in ast.walk(node) if isinstance(n, ast.Name) and n.id == fn.name) != 1:
+                    parts = None
+                    break
+                body = copy.deepcopy([x for x in fn.body if not (isinstance(x, ast.Expr) and isinstance(x.value, ast.Constant) and isinstance(x.value.value, str))])
+                ok = [True]
+                seen_yield = [False]
+
+                def conv(stmts, in_loop, guarded):
+                    out = []
+                    for x in stmts:
+                        if isinstance(x, ast.Expr) and isinstance(x.value, ast.Yield):
+                            if in_loop or guarded:
+                                ok[0] = False
+                            seen_yield[0] = True
+                            out.append(ast.copy_location(ast.Return(value=x.value.value), x))
+                            continue
+                        if isinstance(x, ast.Return):
+                            if x.value is not None or in_loop:
+                                ok[0] = False
+                            out.append(ast.copy_location(ast.Break(), x))
+                            continue
+                        if isinstance(x, _FUNCS + (ast.ClassDef,)):
+                            if any(isinstance(y, (ast.Yield, ast.YieldFrom)) for y in ast.walk(x)):
+                                ok[0] = False
+                            out.append(x)
+                            continue
+                        if any(isinstance(y, (ast.Yield, ast.YieldFrom, ast.Nonlocal, ast.Global, ast.Await)) for y in
+                               [x] + [z for f_ in ("test", "value", "iter", "targets", "target", "items", "exc") for z in _as_list(getattr(x, f_, None)) for z in ast.walk(z)]
+                               if not isinstance(y, ast.stmt)) or isinstance(x, (ast.Nonlocal, ast.Global)):
+                            ok[0] = False
+                        loop = in_loop or isinstance(x, (ast.For, ast.While, ast.AsyncFor))
+                        grd = guarded or isinstance(x, (ast.Try, ast.With, ast.AsyncWith))
+                        for fld in ("body", "orelse", "finalbody"):
+                            b = getattr(x, fld, None)
+                            if isinstance(b, list) and b and isinstance(b[0], ast.stmt):
+                                setattr(x, fld, conv(b, loop, grd))
+                        for h in getattr(x, "handlers", []) or []:
+                            h.body = conv(h.body, loop, grd)
+                        out.append(x)
+                    return out
+                body = conv(body, False, False)
+                if not ok[0] or not seen_yield[0]:
+                    parts = None
+                    break
+                # the generator's own locals stay apart from the function's
+                own = {n.id for x in body for n in ast.walk(x) if isinstance(n, ast.Name) and isinstance(n.ctx, (ast.Store, ast.Del))}
+                ren = {nm: "%s__g%d" % (nm, k + 1) for nm in own if nm in outer_names}
+                if ren:
+                    for x in body:
+                        for n in ast.walk(x):
+                            if isinstance(n, ast.Name) and n.id in ren:
+                                n.id = ren[n.id]
+                parts.append((home, fn, ast.copy_location(ast.While(test=ast.Constant(value=True), body=body + [ast.copy_location(ast.Break(), st)], orelse=[]), st)))
+            if not parts:
+                continue
+            stop = ast.copy_location(ast.Raise(exc=ast.Call(func=ast.Name(id="StopIteration", ctx=ast.Load()), args=[], keywords=[]), cause=None), st)
+            blk[i:i + 1] = [w for (_h, _f, w) in parts] + [stop]
+            for (home, fn, _w) in parts:
+                home.remove(fn)
+                if not home:
+                    home.append(ast.copy_location(ast.Pass(), fn))
+            ast.fix_missing_locations(node)
+            return True or changed
+    return changed
+
+
+def _as_list(v):
+    if v is None:
+        return []
+    if isinstance(v, list):
+        return [x.context_expr if isinstance(x, ast.withitem) else x for x in v if isinstance(x, (ast.AST,))]
+    return [v] if isinstance(v, ast.AST) else []
+
+
 def normal_form(ck, fi):
     """`fi` as the rules read it: maps, lambdas, constant dispatch tables and comprehensions over helpers written out,
     the helpers that this exposes inlined like any other new helper, canonical form re-applied.  The function itself
     when none of these occurs in it (always so on the reference tree)."""
     cache = ck.__dict__.setdefault("_normal_forms", {})
-    if fi.qual in cache:
-        return cache[fi.qual]
+    if fi.qual in cache and cache[fi.qual][0] is fi:
+        return cache[fi.qual][1]
     from ..inline import Inliner, _all_names
     from ..loader import FuncInfo
     from ..canon import canonicalise
     node = copy.deepcopy(fi.node)
     out = FuncInfo(fi.module, node, fi.qual, fi.cls, fi.parent)
     fi.module._index_nested(out)
-    changed = _nf_maps(node)
+    changed = _nf_record_fields(fi, node)
+    while _nf_first_answer(fi, node):
+        changed = True
+    changed = _nf_maps(node) or changed
     changed = _nf_lambdas(node) or changed
     changed = _nf_dispatch(node) or changed
     inl = None
@@ -1209,22 +1493,39 @@ def normal_form(ck, fi):
                 shared |= {nm for x in nl for nm in x.names}
                 changed = True
         changed = _nf_comprehension_loops(node, resolves) or changed
-        if changed:
+        # a local closure that the front end left because it was handed to helpers, and that is only called now that
+        # those helpers are written out, is written out as well
+        def callable_closures():
+            callees = {id(c.func) for c in ast.walk(node) if isinstance(c, ast.Call)}
+            for sub in list(out.nested.values()):
+                uses = [x for x in ast.walk(node) if isinstance(x, ast.Name) and x.id == sub.node.name]
+                if uses and all(id(x) in callees for x in uses) and any(resolves(c) for c in _own_nodes(node)
+                                                                         if isinstance(c, ast.Call) and isinstance(c.func, ast.Name) and c.func.id == sub.node.name):
+                    return True
+            return False
+        changed = callable_closures() or changed
+        rounds = 0
+        while changed and rounds < 3:
+            rounds += 1
             out.nested = {}
             fi.module._index_nested(out)
             # (the variables such a closure shares with this function keep their names)
             inl.rewrite_block_owner(node, out, _all_names(node) - shared, 0)
+            out.nested = {}
+            fi.module._index_nested(out)
+            if not callable_closures():
+                break
         if any(isinstance(c, ast.Call) and isinstance(c.func, ast.Name) and c.func.id in stripped for c in _own_nodes(node)):
-            cache[fi.qual] = fi     # a call of such a closure is left: the function stays as it is
+            cache[fi.qual] = (fi, fi)     # a call of such a closure is left: the function stays as it is
             return fi
     if not changed:
-        cache[fi.qual] = fi
+        cache[fi.qual] = (fi, fi)
         return fi
     ast.fix_missing_locations(node)
     canonicalise(ast.Module(body=[node], type_ignores=[]))
     out.nested = {}
     fi.module._index_nested(out)
-    cache[fi.qual] = out
+    cache[fi.qual] = (fi, out)
     return out
 
 
@@ -2171,12 +2472,16 @@ def _range_call_role(mr):
     RAW = {"next", "iter", "items", "keys", "values"}
 
     def role(seqs, e, at):
-        if not isinstance(e, ast.Call):
-            return None
-        if isinstance(e.func, ast.Name) and e.func.id == "list" and len(e.args) == 1 and not e.keywords:
-            d = mr.df.deps(e.args[0], at)
+        src = spread_copy(e)
+        if src is None and isinstance(e, ast.Call) and isinstance(e.func, ast.Name) and e.func.id in ("list", "tuple") and len(e.args) == 1 and not e.keywords \
+                and not isinstance(e.args[0], ast.Starred):
+            src = e.args[0]
+        if src is not None:
+            d = mr.df.deps(src, at)
             if "param:kwargs" in d and all(x.split(":", 1)[1] in RAW for x in d if x.startswith("call:")):
                 return "values:%d" % id(e)
+            return None
+        if not isinstance(e, ast.Call):
             return None
         if A.call_attr(e) == "call_batch" and A.arg_or_kw(e, 0, "kwargs_list") is not None:
             # failures are raised, not paired with their values (the default; spelled out or not)
@@ -2243,6 +2548,42 @@ def _pairing_ok(mr, ret):
         skip, twice = iteration_counts(mr, heads_of(mr, lp), mr.nodes_all([s for (s, t) in sets]))
         return not skip and not twice and all(paired(p.elem_role(seqs, t.slice, mr.nodes(s)[0]), p.elem_role(seqs, s.value, mr.nodes(s)[0])) for (s, t) in sets)
     return False
+
+
+def _single_is_bulk_of_one(ck):
+    """Does the tree define the single lookup as the bulk query for one key — `get_memento(k)` being
+    `self.get_mementos([k])[0]`, defined once?"""
+    cache = ck.__dict__.setdefault("_single_is_bulk", [])
+    if cache:
+        return cache[0]
+    defs = [c.methods["get_memento"] for m in ck.repo.modules.values() for c in m.all_classes() if "get_memento" in c.methods]
+    ok = len(defs) == 1 and len(defs[0].params) == 2
+    if ok:
+        rets = [r for r in ast.walk(defs[0].node) if isinstance(r, ast.Return)]
+        body = [st for st in defs[0].node.body if not (isinstance(st, ast.Expr) and isinstance(st.value, ast.Constant))]
+        v = rets[0].value if len(rets) == 1 and len(body) == 1 and body[0] is rets[0] else None
+        ok = isinstance(v, ast.Subscript) and isinstance(v.slice, ast.Constant) and v.slice.value == 0 and type(v.slice.value) is int \
+            and isinstance(v.value, ast.Call) and A.call_attr(v.value) == "get_mementos" and A.dotted(A.call_recv(v.value)) == defs[0].params[0] \
+            and len(v.value.args) == 1 and not v.value.keywords and single_item(v.value.args[0]) is not None \
+            and A.dotted(single_item(v.value.args[0])) == defs[0].params[1]
+    cache.append(bool(ok))
+    return cache[0]
+
+
+def single_lookups(ck, fa):
+    """[(expression that yields the stored memento of ONE call, the call node the CFG evaluates, receiver, key)]:
+    `S.get_memento(k)` and — where the tree defines the former as exactly that — `S.get_mementos([k])[0]`."""
+    out = []
+    for c in fa.calls("get_memento"):
+        if fa.nodes(c) and len(c.args) + len(c.keywords) == 1 and A.call_recv(c) is not None:
+            out.append((c, c, A.call_recv(c), (list(c.args) + [k.value for k in c.keywords])[0]))
+    if _single_is_bulk_of_one(ck):
+        for n in A.walk_local(fa.node):
+            if isinstance(n, ast.Subscript) and isinstance(n.ctx, ast.Load) and isinstance(n.slice, ast.Constant) and n.slice.value == 0 and type(n.slice.value) is int \
+                    and isinstance(n.value, ast.Call) and A.call_attr(n.value) == "get_mementos" and fa.nodes(n.value) and A.call_recv(n.value) is not None \
+                    and len(n.value.args) == 1 and not n.value.keywords and single_item(n.value.args[0]) is not None:
+                out.append((n, n.value, A.call_recv(n.value), single_item(n.value.args[0])))
+    return out
 
 
 def is_valid_flag(fa, e, at, _depth=0):
@@ -2337,7 +2678,7 @@ def _check_alignment(ck, R2, R4, ctx, br):
     ck.ob(R4, br.key(loop_ast, "not-served-runs"), ok10, "a non-served element runs through memento_run_local (per-call mutex, re-check)" if ok10 else
           "an element without a valid served result can skip memento_run_local", br.where(loop_ast))
     rl = nfa(ck, RL + ".memento_run_local")
-    lk = [c for c in rl.calls("get_memento") if rl.nodes(c)]
+    lk = [c for (_e, c, _r, _k) in single_lookups(ck, rl)]
     okl = bool(lk) and all(rl.unconditional(c) for c in lk) and all(rl.cfg.must_pass(rl.nodes_all(lk), i) for i in rl.nodes_all(rl.calls("_filter_call")))
     ck.ob(R4, rl.key(None, "recheck-unconditional"), okl, "memento_run_local looks the call up again, unconditionally, before running the body" if okl else
           "memento_run_local can skip its own store lookup (it trusts an earlier bulk query): an element memoized by an earlier element of the "
@@ -2387,11 +2728,17 @@ def _check_front_end(ck, R3):
     run, seqs, arg, elts = call_batch_dispatch(cb)
     built = [(reference_parts(ck, cb, x, n), p) for (x, n, p) in elts or []]
 
+    def no_positional(e, n):
+        # the empty tuple, wherever it was written (`args = ()` ... `args=args`)
+        lv = origins(cb, e, n)
+        return bool(lv) and all((isinstance(x, ast.Tuple) and not x.elts) or (isinstance(x, ast.Call) and isinstance(x.func, ast.Name) and x.func.id == "tuple"
+                                                                                and not x.args and not x.keywords) for (x, _n) in lv)
+
     def is_ref(parts, p):
         if parts is None:
             return False
         _f, args, kw, _c, n = parts
-        return kw is not None and p.elem_role(seqs, kw, n) == "input" and (args is None or (isinstance(args, ast.Tuple) and not args.elts))
+        return kw is not None and p.elem_role(seqs, kw, n) == "input" and (args is None or no_positional(args, n))
     ok6 = bool(built) and all(is_ref(parts, p) for (parts, p) in built)
     ck.ob(R3, cb.key(None, "refs-in-order"), ok6, "one reference per kwargs, in order" if ok6 else
           "call_batch does not build exactly one reference per kwargs in input order", cb.where())
